@@ -183,8 +183,9 @@ func GenStop(r *kit.Rand, id int, c Cfg, mode string) Scenario {
 		// publishers still inside Publish
 		if c.Backend == "lifo" || c.Backend == "queuelim" {
 			c.Buf = 0 // a load-shedding back-end may drop what would have filled the subscriber's buffer
-			sc.Cfg = c
 		}
+		c.InF, c.OutF = 0, 0 // the messages that are to block a worker must reach it
+		sc.Cfg = c
 		nsub := r.Range(1, 3)
 		paused := r.Intn(nsub)
 		for i := 0; i < nsub; i++ {
